@@ -196,7 +196,10 @@ whole operation alphabet including `add_indicator` / `remove_indicator`, every t
 NOT proved: it is false today for trees with helpers (`calculate_index(-1)` hands the negative
 index to helper series; `purge` leaves second-level helper entries) – see known_findings; for
 leaf kinds the standalone-object part is `program_converges_leaf`, for the covered composite
-kinds `C14_trees`. -/
+kinds (VWAP, STDEV, RSI with `calculate_index`; ATR, KC, STDEVTHRES, BBANDS, Supertrend without it,
+because for a tree with sub-indicators `calculate_index(0)` falls back to a full `calculate()` of the
+helpers) `C14_trees`.  Missing: MACD, STOCH, HMA, TSI, ADX, the Hexital façade operations,
+collapsing timeframes. -/
 def C14_FULL (F : Type) [PyF F] : Prop :=
   ∀ (k : Kind F) (name : String) (round : Nat) (init : List (Candle F)) (ops : List (Op F))
     (s : IndState F),
